@@ -1331,3 +1331,27 @@ Proof.
   - destruct tk. reflexivity.
   - cbn [snd]. generalize (unique_entities [] b). intros ul. cbn. induction ul; cbn; auto.
 Qed.
+
+(* ---------- a whole token (all triggers of one registration call) ---------- *)
+Lemma filter_filter_len {A} (p q : A -> bool) l : (length (filter p (filter q l)) <= length (filter p l))%nat.
+Proof.
+  induction l as [|x l IH]; cbn [filter]; [lia|]. destruct (q x); cbn [filter]; destruct (p x); cbn [length]; lia.
+Qed.
+Lemma distinct_revoke_one s t w : wf_tables w -> distinct_regs w -> distinct_regs (revoke_one s t w).
+Proof.
+  intros Hwf Hd s0 t0. rewrite revoke_one_distinct by assumption. eapply Nat.le_trans; [apply filter_filter_len|apply Hd].
+Qed.
+Lemma filter_filter_and {A} (p q : A -> bool) l : filter p (filter q l) = filter (fun x => q x && p x) l.
+Proof. induction l as [|x l IH]; cbn [filter]; [reflexivity|]. destruct (q x); cbn [filter andb]; [destruct (p x); rewrite IH; reflexivity|exact IH]. Qed.
+Theorem revoke_all_distinct s ts : forall w, wf_tables w -> distinct_regs w ->
+  regs (revoke_all s ts w) = filter (fun x => negb (existsb (fun t => named s t x) ts)) (regs w)
+  /\ wf_tables (revoke_all s ts w) /\ distinct_regs (revoke_all s ts w).
+Proof.
+  induction ts as [|t ts IH]; intros w Hwf Hd; cbn [revoke_all existsb].
+  - split; [|split; assumption]. induction (regs w) as [|x l IHl]; cbn; [reflexivity|]. f_equal. exact IHl.
+  - pose proof (wf_revoke_all s [t] w Hwf) as Hwf1. cbn [revoke_all] in Hwf1.
+    pose proof (distinct_revoke_one s t w Hwf Hd) as Hd1.
+    destruct (IH (revoke_one s t w) Hwf1 Hd1) as (E & W2 & D2). split; [|split; assumption].
+    rewrite E, revoke_one_distinct by assumption. rewrite filter_filter_and. apply filter_ext. intros x.
+    destruct (named s t x); reflexivity.
+Qed.
